@@ -6,6 +6,7 @@ import (
 	"crypto/sha256"
 	"fmt"
 	"math/rand"
+	"strings"
 	"sync"
 	"sync/atomic"
 	"testing"
@@ -111,6 +112,13 @@ func (c *c20) op(s *c20sess, rec *appencryption.DataRowRecord, recName string, p
 				c.violate("c20-store-on-refresh", "refresh after the interval wrote to the metastore: %v", calls)
 			}
 		}
+	case !c.cfg.CacheIK && c.cfg.CacheSK:
+		// intermediate keys are not to be retained (whatever the shared-cache option says): every operation has to
+		// read the intermediate key's record
+		c.r.Count("ik_nocache_ops", 1)
+		if readsOfIK == 0 {
+			c.violate("c20-nocache-without-load", "intermediate-key caching disabled but %s performed no read of the key's record", kind)
+		}
 	case !c.cfg.CacheIK && !c.cfg.CacheSK:
 		c.r.Count("nocache_ops", 1)
 		if readsOfIK == 0 {
@@ -169,6 +177,17 @@ func TestC20(t *testing.T) {
 	c.CacheIK, c.CacheSK, c.SharedIK, c.IKCap = false, false, true, 100
 	cfgs = append(cfgs, namedCfg{"no-cache+shared-ik-option", c})
 
+	// caching switched off for one key type only
+	c = base
+	c.CacheIK, c.CacheSK = false, true
+	cfgs = append(cfgs, namedCfg{"sk-cache-only", c})
+	c = base
+	c.CacheIK, c.CacheSK, c.SharedIK, c.IKCap = false, true, true, 100
+	cfgs = append(cfgs, namedCfg{"sk-cache-only+shared-ik-option", c})
+	c = base
+	c.CacheIK, c.CacheSK = true, false
+	cfgs = append(cfgs, namedCfg{"ik-cache-only", c})
+
 	nSeeds := ev.Pick(4, 120)
 	for _, nc := range cfgs {
 		for _, nparts := range []int{1, 3, 20} {
@@ -181,6 +200,7 @@ func TestC20(t *testing.T) {
 		}
 	}
 	concurrentRefresh(t, r)
+	concurrentRefreshEncrypt(t, r)
 	rotationRepeat(t, r)
 	r.Finish(t)
 }
@@ -360,6 +380,139 @@ func concurrentRefresh(t *testing.T, r *ev.Run) {
 			})
 		}()
 	}
+}
+
+// concurrentRefreshEncrypt is the encrypt-path twin of concurrentRefresh: n sessions (per-session IK caches, one
+// factory-wide SK cache) encrypt at the same instant after the revoke-check interval has elapsed. The latest-key
+// lookup of the pinned code takes the cache's write lock for the whole lookup, so there is nothing to hold open; but
+// ./check builds this engine with the auto-generated unlock hooks, and a goroutine that reaches ANY point right
+// after an unlock inside the system-key lookup is parked there until all of them have arrived - so a lookup that
+// drops a lock between finding the key stale and reloading it lets every goroutine through before the first reload.
+func concurrentRefreshEncrypt(t *testing.T, r *ev.Run) {
+	for _, mode := range []string{"same-partitions", "new-partitions", "one-partition-shared-ik-cache"} {
+		for _, n := range []int{2, 4, 8} {
+			concurrentRefreshEncryptCase(t, r, mode, n)
+		}
+	}
+}
+
+func concurrentRefreshEncryptCase(t *testing.T, r *ev.Run, mode string, n int) {
+	name := fmt.Sprintf("concurrent-refresh-encrypt/%s/sessions=%d", mode, n)
+	journal("c20 " + name)
+	defer func() {
+		if pv := recover(); pv != nil {
+			r.Violation("c20-panic", fmt.Sprintf("scenario %s: %v", name, pv), name)
+		}
+	}()
+	synctest.Test(t, func(t *testing.T) {
+		R := 10 * time.Minute
+		cfg := world.Default(1000*time.Hour, R, time.Minute)
+		level := 2 // park inside the second (system-key) latest-key lookup of the operation
+		if mode == "one-partition-shared-ik-cache" {
+			cfg.SharedIK, cfg.IKPolicy, cfg.IKCap = true, "lru", 100
+			level = 1 // park inside the intermediate-key lookup on the shared cache
+		}
+		w := world.New("memguard")
+		defer w.Close()
+		time.Sleep(23 * time.Second)
+		ctx := context.Background()
+		f := w.Factory(cfg, "svc", "prod")
+		part := func(i int) string {
+			if mode == "one-partition-shared-ik-cache" {
+				return "part0"
+			}
+			return fmt.Sprintf("part%d", i)
+		}
+		sess := make([]*appencryption.Session, n)
+		for i := range sess {
+			sess[i], _ = f.GetSession(part(i))
+			if _, err := sess[i].Encrypt(ctx, []byte("warm-up")); err != nil {
+				panic(err)
+			}
+		}
+		if mode == "new-partitions" {
+			// the system key is cached; the concurrent encrypts come from partitions that have no key yet
+			for i := range sess {
+				sess[i].Close()
+				sess[i], _ = f.GetSession(fmt.Sprintf("newpart%d", i))
+			}
+		}
+		time.Sleep(R + time.Nanosecond) // every cached key is stale now
+		ctrl := sched.NewController()
+		calls, entered, armedAt := map[string]int{}, map[string]int{}, map[string]int{}
+		once := map[string]bool{}
+		var mu sync.Mutex
+		probe.SetHookSink(func(point string, arg any) {
+			l := sched.Label()
+			if l == "" {
+				return
+			}
+			mu.Lock()
+			if point == "kc.getorloadlatest.enter" || point == "kc.getorload.enter" {
+				entered[l]++
+			}
+			if point == "kc.getorloadlatest.enter" {
+				calls[l]++
+				if calls[l] == level {
+					armedAt[l] = entered[l]
+				}
+			}
+			// only while the goroutine is inside that lookup itself: once it has entered a deeper key-cache call it
+			// holds the lookup's write lock, and parking it would only make the others wait for that mutex
+			park := calls[l] == level && armedAt[l] == entered[l] && !once[l] && strings.HasPrefix(point, "auto.after_unlock:key_cache.go")
+			if park {
+				once[l] = true
+			}
+			mu.Unlock()
+			if park {
+				ctrl.Park(point)
+			}
+		})
+		defer probe.SetHookSink(nil)
+		ikID := "_IK_part0_svc_prod"
+		reads := func() (int, int, int) {
+			return w.KMS.Count("decrypt"), w.MS.Count("loadlatest:_SK_svc_prod") + w.MS.Count("load:_SK_svc_prod"), w.MS.Count("loadlatest:"+ikID) + w.MS.Count("load:"+ikID)
+		}
+		kms0, sk0, ik0 := reads()
+		var wg sync.WaitGroup
+		var failed atomic.Int32
+		for i := range sess {
+			i := i
+			wg.Add(1)
+			go func() {
+				defer wg.Done()
+				sched.SetLabel(fmt.Sprintf("g%d", i))
+				defer sched.ClearLabel()
+				if _, err := sess[i].Encrypt(ctx, []byte("payload")); err != nil {
+					failed.Add(1)
+				}
+			}()
+		}
+		synctest.Wait()
+		parked := len(ctrl.Parked())
+		ctrl.ReleaseAll()
+		wg.Wait()
+		probe.SetHookSink(nil)
+		kms1, sk1, ik1 := reads()
+		unwraps, skReads, ikReads := kms1-kms0, sk1-sk0, ik1-ik0
+		r.Eval(1)
+		r.Distinct(name)
+		r.Count("concurrent_refresh_encrypt_goroutines_held_after_an_unlock", int64(parked))
+		r.Max("concurrent_refresh_encrypt_sk_reads", int64(skReads))
+		if failed.Load() > 0 {
+			r.Violation("c20-op-failed", fmt.Sprintf("scenario %s: %d encrypt(s) failed", name, failed.Load()), name)
+		}
+		if unwraps > 1 || skReads > 1 {
+			r.Violation("c20-kms-unwrap-twice-in-interval", fmt.Sprintf("scenario %s: %d sessions encrypted at the same moment after the interval had elapsed (%d were held right after an unlock inside the latest-key lookup); the KMS unwrapped the system key %d times and its record was read %d times (want once per factory per interval)", name, n, parked, unwraps, skReads), name)
+		}
+		if mode == "one-partition-shared-ik-cache" && ikReads > 1 {
+			r.Violation("c20-external-call-within-interval", fmt.Sprintf("scenario %s: %d sessions sharing one intermediate-key cache encrypted at the same moment after the interval had elapsed (%d held right after an unlock inside the lookup); the key's record was read %d times (want one re-read per interval)", name, n, parked, ikReads), name)
+		}
+		for _, s := range sess {
+			s.Close()
+		}
+		f.Close()
+	})
 }
 
 func runC20(t *testing.T, r *ev.Run, name string, cfg world.Cfg, nparts int, seed int64) {
